@@ -111,6 +111,160 @@ static void chk(int argc, char** argv)
 	if (code == ERR_OK) printf("pass"); else printf("%u", (unsigned)code);
 }
 
+
+#ifdef C09_SCEN2
+/* ------------------------------------------------------------------ boundary values of private keys and points
+   `key <function> <idx>` : private key d = 0, 1, q-1, q, q+1, ff..ff  (idx 0..5; pfok: 0, 1, 2^r-1, 2^r, 2^r+1, ff..ff)
+   `pt  <function> <idx>` : public key / point (0,0), (p-1,yG), (p,yG), (p+1,yG), (xG,p), valid key with one bit of y flipped,
+                            G, -G, a valid public key  (idx 0..8; pfok: y = 0, p-1, p, p+1, ff..ff, -, g, -, valid)
+   -> `code=<err_t> out=<0|1|2> d=<hex LE> q=<hex LE>`  /  `code=… out=… p=… a=… b=… x=… y=…` (hex LE) */
+static void put_hex(const void* buf, size_t len);
+static void le_add1(octet* d, size_t n) { size_t i; for (i = 0; i < n; ++i) if (++d[i]) break; }
+static void le_sub1(octet* d, size_t n) { size_t i; for (i = 0; i < n; ++i) if (d[i]--) break; }
+static octet KD[80], KQ[80], PX[80], PY[80], PPT[200];
+static size_t mk_priv(const octet* q, size_t n, int idx, size_t rbits)
+{
+	memset(KD, 0, sizeof KD); memset(KQ, 0, sizeof KQ);
+	if (rbits) { KQ[rbits / 8] = (octet)(1 << (rbits % 8)); }     /* bound 2^r (exclusive) */
+	else memcpy(KQ, q, n);
+	switch (idx)
+	{
+	case 0: break;
+	case 1: KD[0] = 1; break;
+	case 2: memcpy(KD, KQ, n + 1); le_sub1(KD, n + 1); break;
+	case 3: memcpy(KD, KQ, n + 1); break;
+	case 4: memcpy(KD, KQ, n + 1); le_add1(KD, n + 1); break;
+	default: memset(KD, 0xFF, n); break;
+	}
+	return n;
+}
+static void put_key(err_t code, size_t n, size_t nq)
+{
+	printf("code=%u out=%d d=", (unsigned)code, out_state()); put_hex(KD, n); printf(" q="); put_hex(KQ, nq);
+}
+static void key_op(const char* f, int idx)
+{
+	err_t code = ERR_MAX; size_t n; size_t l = 0;
+	material(); bign_setup(); oid_setup(); b96_setup(); g12_setup(); ds_setup(); pf_setup(); cvc_setup(); out_reset();
+	if (strncmp(f, "bign96", 6) == 0)
+	{
+		n = mk_priv(P96->q, 24, idx, 0);
+		if (KD[24]) { printf("skip"); return; }
+		if (!strcmp(f, "bign96PubkeyCalc")) { out_add(BUF1, 48); code = bign96PubkeyCalc(BUF1, P96, KD); }
+		else if (!strcmp(f, "bign96KeypairVal")) code = bign96KeypairVal(P96, KD, PUB96);
+		else if (!strcmp(f, "bign96Sign")) { out_add(BUF1, 34); tape_start(); code = bign96Sign(BUF1, P96, OIDDER, OIDLEN, DATA, KD, prngEchoStepR, ECHO); }
+		else if (!strcmp(f, "bign96Sign2")) { out_add(BUF1, 34); code = bign96Sign2(BUF1, P96, OIDDER, OIDLEN, DATA, KD, 0, 0); }
+		else { printf("unknown"); return; }
+		put_key(code, 24, 24); return;
+	}
+	if (strncmp(f, "pfok", 4) == 0)
+	{
+		size_t r = PFP->r, no = (r + 7) / 8;
+		mk_priv(0, no, idx, r);
+		if (idx == 5 && r % 8 == 0) { printf("skip"); return; }
+		if ((idx == 3 || idx == 4) && r % 8 == 0) { printf("skip"); return; }
+		if (!strcmp(f, "pfokPubkeyCalc")) { out_add(BUF1, 80); code = pfokPubkeyCalc(BUF1, PFP, KD); }
+		else if (!strcmp(f, "pfokDH")) { out_add(BUF1, 32); code = pfokDH(BUF1, PFP, KD, PFY); }
+		else if (!strcmp(f, "pfokMTI")) { out_add(BUF1, 32); code = pfokMTI(BUF1, PFP, KD, PFU, PFY, PFV); }
+		else { printf("unknown"); return; }
+		put_key(code, no, no); return;
+	}
+	if (!strcmp(f, "g12sSign"))
+	{
+		mk_priv(G12P->q, 32, idx, 0); if (KD[32]) { printf("skip"); return; }
+		out_add(BUF1, 64); tape_start(); code = g12sSign(BUF1, G12P, DATA, KD, prngEchoStepR, ECHO);
+		put_key(code, 32, 32); return;
+	}
+	if (!strcmp(f, "dstuSign"))
+	{
+		mk_priv(DSP->n, 21, idx, 0); if (KD[21]) { printf("skip"); return; }
+		out_add(BUF1, 64); tape_start(); code = dstuSign(BUF1, DSP, 512, DATA, 32, KD, prngEchoStepR, ECHO);
+		put_key(code, 21, 21); return;
+	}
+	mk_priv(PARAMS->q, 32, idx, 0);
+	if (KD[32]) { printf("skip"); return; }
+	if (!strcmp(f, "bignPubkeyCalc")) { out_add(BUF1, 64); code = bignPubkeyCalc(BUF1, PARAMS, KD); }
+	else if (!strcmp(f, "bignKeypairVal")) code = bignKeypairVal(PARAMS, KD, PUB);
+	else if (!strcmp(f, "bignDH")) { out_add(BUF1, 32); code = bignDH(BUF1, PARAMS, KD, PUB, 32); }
+	else if (!strcmp(f, "bignSign")) { out_add(BUF1, 48); tape_start(); code = bignSign(BUF1, PARAMS, OIDDER, OIDLEN, DATA, KD, prngEchoStepR, ECHO); }
+	else if (!strcmp(f, "bignSign2")) { out_add(BUF1, 48); code = bignSign2(BUF1, PARAMS, OIDDER, OIDLEN, DATA, KD, 0, 0); }
+	else if (!strcmp(f, "bignKeyUnwrap"))
+	{
+		tape_start(); bignKeyWrap(BUF2, PARAMS, K32, 32, HDR16, PUB, prngEchoStepR, ECHO);
+		out_add(BUF1, 32); code = bignKeyUnwrap(BUF1, PARAMS, BUF2, 80, HDR16, KD);
+		if (code != ERR_OK && code != ERR_BAD_PRIVKEY && out_state() == 1) out_reset();    /* zeroised on a failed token: documented */
+	}
+	else if (!strcmp(f, "btokCVCWrap"))
+	{
+		memcpy(CVCX, CVC0, sizeof CVCX); CVCX->pubkey_len = 0; l = 0;
+		out_add(BUF1, 400); code = btokCVCWrap(BUF1, &l, CVCX, KD, 32);
+		if (code == ERR_BAD_PRIVKEY && out_state() == 2) out_reset();     /* body encoded before signing: OUTPUT_ON_ERROR */
+	}
+	else if (!strcmp(f, "btokCVCIss"))
+	{
+		memcpy(CVCX, CVC1, sizeof CVCX); l = 0;
+		out_add(BUF1, 400); code = btokCVCIss(BUF1, &l, CVCX, CERT0, CERT0_LEN, KD, 32);
+	}
+	else { printf("unknown"); return; }
+	put_key(code, 32, 32);
+}
+static void put_pt(err_t code, const octet* p, const octet* a, const octet* b, size_t n)
+{
+	printf("code=%u out=%d p=", (unsigned)code, out_state()); put_hex(p, n); printf(" a="); put_hex(a, n); printf(" b="); put_hex(b, n);
+	printf(" x="); put_hex(PX, n + 1); printf(" y="); put_hex(PY, n + 1);
+}
+/* the nine candidate points for a prime curve (p, a, b) with base point (gx, gy) and a valid public key pub */
+static int mk_pt(const octet* p, const octet* gx, const octet* gy, const octet* pub, size_t n, int idx)
+{
+	memset(PX, 0, sizeof PX); memset(PY, 0, sizeof PY);
+	switch (idx)
+	{
+	case 0: break;
+	case 1: memcpy(PX, p, n); le_sub1(PX, n + 1); memcpy(PY, gy, n); break;
+	case 2: memcpy(PX, p, n); memcpy(PY, gy, n); break;
+	case 3: memcpy(PX, p, n); le_add1(PX, n + 1); memcpy(PY, gy, n); break;
+	case 4: memcpy(PX, gx, n); memcpy(PY, p, n); break;
+	case 5: memcpy(PX, pub, n); memcpy(PY, pub + n, n); PY[n / 2] ^= 0x08; break;
+	case 6: memcpy(PX, gx, n); memcpy(PY, gy, n); break;
+	case 7: { size_t i; int br = 0; memcpy(PX, gx, n);                 /* y = p - gy */
+		for (i = 0; i < n; ++i) { int d = (int)p[i] - gy[i] - br; br = d < 0; PY[i] = (octet)(d + (br ? 256 : 0)); } } break;
+	default: memcpy(PX, pub, n); memcpy(PY, pub + n, n); break;
+	}
+	if (PX[n] || PY[n]) return 0;      /* does not fit the encoding (p + 1 with p = 2^k - 1 never happens here) */
+	memcpy(PPT, PX, n); memcpy(PPT + n, PY, n);
+	return 1;
+}
+static void pt_op(const char* f, int idx)
+{
+	err_t code = ERR_MAX; octet zero[64] = {0};
+	material(); bign_setup(); oid_setup(); b96_setup(); g12_setup(); pf_setup(); out_reset();
+	if (strncmp(f, "bign96", 6) == 0)
+	{
+		if (!mk_pt(P96->p, zero, P96->yG, PUB96, 24, idx)) { printf("skip"); return; }
+		if (!strcmp(f, "bign96PubkeyVal")) code = bign96PubkeyVal(P96, PPT);
+		else if (!strcmp(f, "bign96Verify")) code = bign96Verify(P96, OIDDER, OIDLEN, DATA, DATA + 100, PPT);
+		else if (!strcmp(f, "bign96KeypairVal")) code = bign96KeypairVal(P96, PRIV96, PPT);
+		else { printf("unknown"); return; }
+		put_pt(code, P96->p, P96->a, P96->b, 24); return;
+	}
+	if (!strcmp(f, "g12sVerify"))
+	{
+		if (!mk_pt(G12P->p, G12P->xP, G12P->yP, G12PUB, 32, idx)) { printf("skip"); return; }
+		code = g12sVerify(G12P, DATA, DATA + 100, PPT);
+		put_pt(code, G12P->p, G12P->a, G12P->b, 32); return;
+	}
+	if (!mk_pt(PARAMS->p, zero, PARAMS->yG, PUB, 32, idx)) { printf("skip"); return; }
+	if (!strcmp(f, "bignPubkeyVal")) code = bignPubkeyVal(PARAMS, PPT);
+	else if (!strcmp(f, "bignKeypairVal")) code = bignKeypairVal(PARAMS, PRIV, PPT);
+	else if (!strcmp(f, "bignDH")) { out_add(BUF1, 32); code = bignDH(BUF1, PARAMS, PRIV, PPT, 32); }
+	else if (!strcmp(f, "bignVerify")) code = bignVerify(PARAMS, OIDDER, OIDLEN, DATA, DATA + 100, PPT);
+	else if (!strcmp(f, "bignKeyWrap")) { out_add(BUF1, 80); tape_start(); code = bignKeyWrap(BUF1, PARAMS, K32, 32, HDR16, PPT, prngEchoStepR, ECHO); }
+	else if (!strcmp(f, "bignIdVerify")) { id_setup(); code = bignIdVerify(PARAMS, OIDDER, OIDLEN, IDHASH, DATA, IDSIG, IDPUB, PPT); }
+	else { printf("unknown"); return; }
+	put_pt(code, PARAMS->p, PARAMS->a, PARAMS->b, 32);
+}
+#endif
+
 static void handle(int argc, char** argv)
 {
 	static int init;
@@ -118,6 +272,10 @@ static void handle(int argc, char** argv)
 	if (argc == 1 && strcmp(argv[0], "list") == 0) { do_list(); return; }
 	if (argc == 4 && strcmp(argv[0], "scen") == 0) { do_scen(argv[1], atoi(argv[2]), atol(argv[3])); return; }
 	if (argc >= 3 && strcmp(argv[0], "chk") == 0) { chk(argc, argv); return; }
+#ifdef C09_SCEN2
+	if (argc == 3 && strcmp(argv[0], "key") == 0) { key_op(argv[1], atoi(argv[2])); return; }
+	if (argc == 3 && strcmp(argv[0], "pt") == 0) { pt_op(argv[1], atoi(argv[2])); return; }
+#endif
 	printf("bad-op");
 }
 #include "common.h"
